@@ -14,7 +14,7 @@ PROP = {'drive': ['Header'],
  'rule': 'distinct case lines (scaler, tag->bytes map / file bytes); non-trivial = at least two tables',
  'partial': ["clause 'an independent sfnt implementation reading a complete font file reports the same glyph "
              "count, units per em, mapping, widths, names, outlines' is a corollary of C09/C11/C12/C14 spec "
-             'decoders and is only as complete as those; the x/image oracle (stream header.ximage) checks glyph count, units per em, character mapping and advance widths on complete files; glyph names and outlines are not yet compared',
+             'decoders and is only as complete as those; the x/image oracle checks glyph count, units per em, character mapping and advance widths (stream header.ximage), glyph names of TrueType files (header.xnames) and the outlines (header.xoutline: every on/off-curve point of every simple TrueType glyph, the complete segment list of CFF glyphs with integral coordinates) on complete files written from Go Regular/Mono/Bold Italic/Smallcaps, the debug CFF font and subsets of them; composite glyphs and CFF glyph names are not compared (x/image exposes neither)',
              'C03_read_write (the model of the library reader header.Read accepts every written file and '
              'returns exactly the written bodies) is a theorem; that the model of header.Read is header.Read is the '
              'verdict stream header.read (well-formed, truncated and mutated files)'],
